@@ -168,3 +168,192 @@ fire('variable-unify-double-yield', ['C02'], ['C02.Y1'],
          """            if self._value == self:
                 yield False
             if True:"""))
+
+# ---------------------------------------------------------------------------------------------
+# C17
+fire('evalb-no-close', ['C17'], ['C17.P4'],
+     (E, "            if hasattr(query, 'close'):\n                query.close()\n", ""))
+fire('evalb-restore-not-in-finally', ['C17'], ['C17.P1'],
+     (E, """        finally:
+            sys.setrecursionlimit(old_recursionlimit)
+            if hasattr(query, 'close'):
+                query.close()
+        return result""",
+         """        finally:
+            if hasattr(query, 'close'):
+                query.close()
+        sys.setrecursionlimit(old_recursionlimit)
+        return result"""))
+fire('evalb-catch-only-stopiteration', ['C17'], ['C17.P2'],
+     (E, "        except RuntimeError:\n            pass\n        except StopIteration:", "        except StopIteration:"))
+fire('evalb-insert-front', ['C17'], ['C17.P3'],
+     (E, "                result.append(projection_function(x))", "                result.insert(0, projection_function(x))"))
+fire('evalb-skip-falsy', ['C17'], ['C17.P3'],
+     (E, "                result.append(projection_function(x))", "                if x:\n                    result.append(projection_function(x))"))
+silent('evalb-closing-first', ['C17'],
+       (E, """            sys.setrecursionlimit(old_recursionlimit)
+            if hasattr(query, 'close'):
+                query.close()""",
+           """            try:
+                if hasattr(query, 'close'):
+                    query.close()
+            finally:
+                sys.setrecursionlimit(old_recursionlimit)"""))
+
+# ---------------------------------------------------------------------------------------------
+# C07
+fire('retract-atom-object-as-name', ['C07'], ['C07.K1'],
+     (E, "            name = term.name()\n            args = []\n        else:\n            return\n", "            name = term\n            args = []\n        else:\n            return\n"))
+fire('assertz-no-deref', ['C07'], ['C07.D1'],
+     (E, "        '''assertz(Term) adds Term to the facts database at the end.'''\n        term = get_value(term)\n",
+         "        '''assertz(Term) adds Term to the facts database at the end.'''\n"))
+fire('retract-no-else', ['C07'], ['C07.D2'],
+     (E, "            name = term.name()\n            args = []\n        else:\n            return\n", "            name = term.name()\n            args = []\n"))
+fire('retractall-raises-unknown', ['C07'], ['C07.D3'],
+     (E, "        for clause in self._find_clauses(name, len(args)):\n            match = False",
+         "        for clause in self._find_predicates(name, len(args)):\n            match = False"))
+fire('asserta-atom-appends', ['C07'], ['C07.O1'],
+     (E, "            self.assert_fact(term, [], False)", "            self.assert_fact(term, [])"))
+fire('assert-fact-swapped', ['C07'], ['C07.O1'],
+     (E, "            clauses = clauses + [answer]\n        else:\n            clauses = [answer] + clauses",
+         "            clauses = [answer] + clauses\n        else:\n            clauses = clauses + [answer]"))
+fire('retractall-returns-none', ['C07'], ['C07.O2'],
+     (E, "        self._update_predicate(self.atom(name), len(args), remaining_clauses)\n        return YPSuccess()",
+         "        self._update_predicate(self.atom(name), len(args), remaining_clauses)"))
+fire('retractall-fails', ['C07'], ['C07.O2'],
+     (E, "        self._update_predicate(self.atom(name), len(args), remaining_clauses)\n        return YPSuccess()",
+         "        self._update_predicate(self.atom(name), len(args), remaining_clauses)\n        return YPFail()"))
+fire('clear-keeps-facts', ['C07'], ['C07.O3'],
+     (E, "        self._atom_store = {}\n        self._predicates_store = {}\n        self.ATOM_NIL = self.atom(\"[]\")\n        self._set_default_eval_context()",
+         "        self._atom_store = {}\n        self.ATOM_NIL = self.atom(\"[]\")\n        self._set_default_eval_context()"))
+fire('clear-stale-nil', ['C07', 'C16'], ['C07.O3', 'C16.A4'],
+     (E, "        self._predicates_store = {}\n        self.ATOM_NIL = self.atom(\"[]\")\n        self._set_default_eval_context()\n        self._set_builtin_predicates()\n\n    def atom",
+         "        self._predicates_store = {}\n        self._set_default_eval_context()\n        self._set_builtin_predicates()\n\n    def atom"))
+silent('asserta-early-return-style', ['C07'],
+       (E, """        term = get_value(term)
+        if isinstance(term, Functor):
+            self.assert_fact(self.atom(term._name), term._args, False)
+        elif isinstance(term, Atom):
+            self.assert_fact(term, [], False)
+        return YPSuccess()""",
+           """        t = get_value(term)
+        if isinstance(t, Functor):
+            self.assert_fact(self.atom(t._name), t._args, append=False)
+            return YPSuccess()
+        if isinstance(t, Atom):
+            self.assert_fact(t, [], append=False)
+        return YPSuccess()"""))
+
+# ---------------------------------------------------------------------------------------------
+# C09
+fire('call-reads-raw-goal', ['C09'], ['C09.D1'],
+     (E, "            goal_name = goal_value._name\n            goal_args = goal_value._args", "            goal_name = goal._name\n            goal_args = goal._args"))
+fire('call-else-pass', ['C09'], ['C09.D2'],
+     (E, "            # TODO: raise exception\n            return\n", "            # TODO: raise exception\n            pass\n"))
+fire('once-bare-next', ['C09'], ['C09.S1'],
+     (E, "        for r in self.call(goal):\n            yield r\n            return\n", "        q = self.call(goal)\n        yield next(q)\n"))
+fire('findall-direct-query', ['C09'], ['C09.M1', 'C09.D1'],
+     (E, "        q = self.call(goal)\n        results", "        q = self.query(goal._name, goal._args)\n        results"))
+fire('call-extra-args-first', ['C09'], ['C09.M2'],
+     (E, "goal_args + list(args)", "list(args) + goal_args"))
+fire('findall-raw-template', ['C09'], ['C09.M3'],
+     (E, "[ get_value(template) for r in q ]", "[ template for r in q ]"))
+fire('findall-reversed', ['C09'], ['C09.M3'],
+     (E, "self.makelist([ get_value(template) for r in q ])", "self.makelist(list(reversed([ get_value(template) for r in q ])))"))
+fire('neq-yields-when-unifiable', ['C09'], ['C09.M4'],
+     (E, "            if cutIf1:\n                doBreak = False\n            if doBreak:\n                break\n        if False:\n                yield False",
+         "            if cutIf1:\n                doBreak = False\n            if doBreak:\n                break\n        if cutIf1:\n                yield False"))
+fire('neq-never-yields', ['C09'], ['C09.M4'],
+     (E, "                if doBreak:\n                    break\n                yield False\n", "                if doBreak:\n                    break\n"))
+silent('neq-simple-form', ['C09', 'C03', 'C20'],
+       (E, """        doBreak = False
+        for _ in [1]:
+            X = arg1
+            Y = arg2
+            cutIf1 = False
+            for _ in [1]:
+                for l1 in self.query('=',[X,Y]):
+                    cutIf1 = True
+                    doBreak = True
+                    break
+                if doBreak:
+                    break
+                yield False
+            if cutIf1:
+                doBreak = False
+            if doBreak:
+                break
+        if False:
+                yield False""",
+           """        for l1 in unify(arg1, arg2):
+            return
+        yield False"""))
+silent('once-next-with-handler', ['C09', 'C03', 'C20'],
+       (E, "        for r in self.call(goal):\n            yield r\n            return\n",
+           "        q = self.call(goal)\n        try:\n            r = next(q)\n        except StopIteration:\n            return\n        yield r\n"))
+
+# ---------------------------------------------------------------------------------------------
+# C14
+fire('assert-fact-in-place', ['C14'], ['C14.L1'],
+     (E, "            clauses = clauses + [answer]\n", "            clauses.append(answer)\n"))
+fire('retract-stale-read', ['C14'], ['C14.L2'],
+     (E, """        for clause in self._find_clauses(name, len(args)):
+            for cut in clause.match(args):
+                current = self._find_clauses(name, len(args))
+                if any(c is clause for c in current):""",
+         """        current = self._find_clauses(name, len(args))
+        for clause in current:
+            for cut in clause.match(args):
+                if any(c is clause for c in current):"""))
+fire('retract-no-presence-test', ['C14'], ['C14.L3'],
+     (E, """                if any(c is clause for c in current):
+                    self._update_predicate(self.atom(name), len(args),
+                                           [c for c in current if c is not clause])
+                    yield False""",
+         """                self._update_predicate(self.atom(name), len(args),
+                                       [c for c in current if c is not clause])
+                yield False"""))
+silent('match-all-snapshot', ['C14', 'C03'],
+       (E, "        for clause in clauses:\n            for cut in clause.match(args):\n                yield False",
+           "        for clause in list(clauses):\n            for cut in clause.match(args):\n                yield False"))
+
+# ---------------------------------------------------------------------------------------------
+# C08 / C20
+fire('query-functions-before-facts', ['C08'], ['C08.Q1'],
+     (E, """        yield from self.match_dynamic(self.atom(name), args)
+        if name not in self.eval_blacklist:
+            function = self.eval_context.get(f'{name}_{len(args)}', self.eval_context.get(f'{name}_n'))
+            if function is not None:
+                yield from function(*args)""",
+         """        if name not in self.eval_blacklist:
+            function = self.eval_context.get(f'{name}_{len(args)}', self.eval_context.get(f'{name}_n'))
+            if function is not None:
+                yield from function(*args)
+        yield from self.match_dynamic(self.atom(name), args)"""))
+fire('query-variadic-preferred', ['C08'], ['C08.Q3'],
+     (E, "self.eval_context.get(f'{name}_{len(args)}', self.eval_context.get(f'{name}_n'))",
+         "self.eval_context.get(f'{name}_n', self.eval_context.get(f'{name}_{len(args)}'))"))
+fire('register-key-no-underscore', ['C08', 'C20'], ['C08.Q2', 'C20.U1'],
+     (E, "            self.eval_context[f'{name}_{arity}'] = func", "            self.eval_context[f'{name}{arity}'] = func"))
+fire('combine-new-first', ['C08'], ['C08.Q5'],
+     (E, "chain_functions(self.eval_context.get(k), v)", "chain_functions(v, self.eval_context.get(k))"))
+fire('chain-reversed', ['C08'], ['C08.Q5'],
+     (E, "funcs = [f for f in [func1, func2] if f is not None]", "funcs = [f for f in [func2, func1] if f is not None]"))
+fire('exec-in-live-context', ['C08'], ['C08.Q6'],
+     (E, "        exec(code, new_context)", "        exec(code, self.eval_context)\n        new_context = self.eval_context"))
+fire('query-raises-unknown', ['C08'], ['C08.Q4'],
+     (E, "            clauses = self._find_predicates(name.name(), len(args))\n            return self._match_all_clauses(clauses, args)\n        except YPException as e:\n            return YPFail()",
+         "            clauses = self._find_predicates(name.name(), len(args))\n            return self._match_all_clauses(clauses, args)\n        except KeyError as e:\n            return YPFail()"))
+silent('query-two-step-lookup', ['C08', 'C20', 'C03'],
+       (E, "            function = self.eval_context.get(f'{name}_{len(args)}', self.eval_context.get(f'{name}_n'))\n",
+           "            function = self.eval_context.get(f'{name}_{len(args)}')\n            if function is None:\n                function = self.eval_context.get(f'{name}_n')\n"))
+silent('query-percent-format', ['C08', 'C20'],
+       (E, "self.eval_context.get(f'{name}_{len(args)}', self.eval_context.get(f'{name}_n'))",
+           "self.eval_context.get('%s_%d' % (name, len(args)), self.eval_context.get(name + '_n'))"))
+fire('query-inspects-yield', ['C20'], ['C20.U2'],
+     (E, "                for l1 in self.query('=',[X,Y]):\n                    cutIf1 = True", "                for l1 in self.query('=',[X,Y]):\n                    if l1:\n                        continue\n                    cutIf1 = True"))
+fire('query-swallows-exceptions', ['C20'], ['C20.U3'],
+     (E, "            if function is not None:\n                yield from function(*args)",
+         "            if function is not None:\n                try:\n                    yield from function(*args)\n                except Exception:\n                    return"))
+fire('query-reversed-args', ['C20'], ['C20.U4'],
+     (E, "                yield from function(*args)", "                yield from function(*reversed(args))"))
